@@ -322,16 +322,16 @@ func (self *AofFile) ReadLock(lock *AofLock) error {
 		return err
 	}
 
-	lockLen := uint16(buf[0]) | uint16(buf[1])<<8
-	if n != int(lockLen)+2 {
+	for n < 64 {
 		nn, nerr := self.rbuf.Read(buf[n:64])
 		if nerr != nil {
-			return err
+			return nerr
 		}
 		n += nn
-		if n != int(lockLen)+2 {
-			return errors.New("Lock Len error")
-		}
+	}
+	lockLen := uint16(buf[0]) | uint16(buf[1])<<8
+	if n != int(lockLen)+2 {
+		return errors.New("Lock Len error")
 	}
 
 	self.size += 2 + int(lockLen)
